@@ -106,6 +106,7 @@ class SummInterp(Interp):
                                   "subdomain": ("struct", 0, "subdomain_type"), "data": ("real", 2),
                                   "data_on_device": ("logical", 0)})
         self.skolems = []
+        self.check_kinds = False      # kinds come from external (infrastructure) modules
 
     def use_handler(self, d, frame):
         return True
